@@ -128,7 +128,7 @@ Definition apply_fn (f : fn) (v : val) : M val :=
                  | VInt x => ret (VInt (x + z)%Z)
                  | VBool b => ret (VInt ((if b then 1 else 0) + z)%Z)
                  | _ => fail TypeErr end
-  | FConst c => ret c
+  | FConst c => match c with VRef _ => fail RuntimeErr | _ => ret c end   (* scalars only *)
   | FNewList xs => l <- alloc (OList xs) ;; ret (VRef l)
   | FAppended x =>
       match v with
@@ -429,10 +429,7 @@ Section Core.
     end.
 
   (* utils/mutation.py:mutate_value *)
-  Definition mutate_value (m : mv_args) : M val :=
-    match mv_new m with
-    | VUnchanged => ret (mv_old m)
-    | _ =>
+  Definition mutate_value_body (m : mv_args) : M val :=
       let use_new := negb (is_missing (mv_new m)) && negb (match mv_new m with VEmpty => true | _ => false end) in
       let value0 := if use_new then mv_new m else if mv_replace m then VMissing else mv_old m in
       let prepare := if use_new then mv_prepare m else PNone in
@@ -524,7 +521,12 @@ Section Core.
                    else rec (KSetAttr l (fst p) t false false) ;;; ret tt)
                 ats) ;;;
           ret value5
-      end
+      end.
+
+  Definition mutate_value (m : mv_args) : M val :=
+    match mv_new m with
+    | VUnchanged => ret (mv_old m)
+    | _ => mutate_value_body m
     end.
 
   (* ---------------- collections ---------------- *)
@@ -627,7 +629,11 @@ Section Core.
     | None => if raise_if_missing then fail KeyErr else ret (key, VMissing)
     end.
 
+  Definition key_type (t : ty) : ty := match t with TDict k _ => k | _ => TAny end.
+
   Definition map_inserter (sp : attr_spec) (coll key item : val) : M unit :=
+    okk <- check_typeM ct key (key_type (a_ty sp)) ;;
+    if negb okk then fail ValueErr else
     ok <- check_typeM ct item (item_type (a_ty sp)) ;;
     if negb ok then fail ValueErr else
     p <- read_dict coll ;;
@@ -736,7 +742,15 @@ Section Core.
           (fresh <- create_collection sp ;; add_items fam sp inst fresh coll1)
         else
           (t <- truthy_collection coll1 ;;
-           if t then prepare_items fam sp inst coll1 else ret coll1)
+           match a_prepare_item sp with
+           | Some _ =>
+               if t then
+                 (* copy.copy of the caller's container, then normalise the copy *)
+                 l <- loc_of coll1 ;; o <- read l ;; l' <- alloc o ;;
+                 prepare_items fam sp inst (VRef l')
+               else ret coll1
+           | None => ret coll1
+           end)
     end.
 
   (* utils/mutation.py:prepare_attr_value *)
